@@ -12,6 +12,11 @@ import (
 
 func (c *conn) sendLoop(ctx async.Context) status.Status {
 	for {
+		// Get the wait channel before polling. The queue checks only its first block and discards
+		// a pending notification in ReadWait, a message added between the poll and the wait
+		// would not wake this loop.
+		wait := c.writeq.ReadWait()
+
 		// Write pending messages
 		b, ok, st := c.writeq.Read()
 		switch {
@@ -33,7 +38,7 @@ func (c *conn) sendLoop(ctx async.Context) status.Status {
 		select {
 		case <-ctx.Wait():
 			return ctx.Status()
-		case <-c.writeq.ReadWait():
+		case <-wait:
 		}
 	}
 }
